@@ -15,7 +15,7 @@ RULE = ("three-phase networks dimensioned so constraints bind in a good share of
         "on/off x {no estimator, SimpleRampdown, stub estimator} x continuous_inc; non-trivial = a call with a binding "
         "constraint (some session got less than its own bound) and >=2 active sessions; distinct = history signature + options")
 PROBES = ["binding_call", "nearly_finished_session", "estimator_bound_binding", "uninterrupted_min_applied", "crossed_session_ids",
-          "resumed", "rr_call", "greedy_call", "finite_rate_station", "removed_finished_session", "constraint_free", "call_after_reconfig"]
+          "resumed", "rr_call", "greedy_call", "finite_rate_station", "removed_finished_session", "constraint_free", "call_after_reconfig", "knife_edge_world", "knife_edge_sum_rejected"]
 FAULT_DIMENSION = ("crash + rerun (estimator state carried across a resume); operator changes a constraint limit between two "
                    "periods (update_constraint); no fault alters the algorithm")
 ASSUMPTIONS = ["network tolerances >= the algorithms' hard-wired 1e-5 / 1e-7 (the algorithm-side check does not read the network's)",
@@ -31,6 +31,31 @@ def gen(rs, tier):
     sc = world.gen_world(rs, PROFILE)
     sc["network"]["violation_tolerance"] = [1e-5, 1e-5, 1e-3, 0.01][rs % 4]
     sc["network"]["relative_tolerance"] = [1e-7, 1e-7, 1e-5, 1e-3][(rs // 4) % 4]
+    r = world.sub(rs, "knife")
+    if sc["network"]["constraints"] and r.random() < 0.15:
+        # knife-edge flavour: one constraint's limit sits a hair (inside the tolerance formula's own resolution) below a sum
+        # of maximum pilots the algorithm can reach exactly: limit = S - 1e-5 - 0.5e-7*S  =>  S is infeasible by 0.5e-7*S
+        c = r.choice(sc["network"]["constraints"])
+        st = {s_["id"]: s_ for s_ in sc["network"]["stations"]}
+        mem = [m for m in c["coeffs"] if m in st]
+        tgt = r.sample(mem, min(len(mem), r.choice([1, 2, 2, 3])))
+        ph = st[mem[0]]["phase"]
+        for m in mem:
+            c["coeffs"][m] = 1
+            st[m]["phase"] = ph
+        from ..sortedworld import max_pilot as _mp
+        S = sum(_mp(st[m]["evse"]) for m in tgt)
+        if S > 1 and S != float("inf"):
+            c["limit"] = S - 1e-5 - 0.5e-7 * S
+            sc["knife_edge"] = {"constraint": c["name"], "targets": tgt, "sum": S}
+            sc["reconfig"] = [x for x in sc.get("reconfig", []) if x["name"] != c["name"]]
+            sc["network"]["violation_tolerance"] = 1e-5
+            sc["network"]["relative_tolerance"] = 1e-7
+            for s_ in sc["sessions"]:
+                if s_["station"] in tgt:        # enough demand to ask for the maximum pilot
+                    s_["energy"] = round(max(s_["energy"], _mp(st[s_["station"]]["evse"]) * st[s_["station"]]["voltage"] / 1000.0
+                                             * sc["sim"]["period"] / 60.0 * (s_["departure"] - s_["arrival"]) * 1.2), 4)
+                    s_["battery"]["capacity"] = max(s_["battery"]["capacity"], s_["battery"]["init"] + s_["energy"] * 1.5)
     if sc["party"]["kind"] == "rr":
         # keep the discretised continuous grids small (speed)
         inc = sc["party"].get("continuous_inc", 1)
@@ -75,6 +100,8 @@ def check(sc):
         out.probe("crossed_session_ids")
     if not cons0:
         out.probe("constraint_free")
+    if sc.get("knife_edge"):
+        out.probe("knife_edge_world")
     if any(s["evse"]["type"] == "Finite" for s in sc["network"]["stations"]):
         out.probe("finite_rate_station")
     est_mode = p.get("estimator", "none")
@@ -104,6 +131,10 @@ def check(sc):
             out.add("C07/network_rejects_schedule", "t=%d schedule %s" % (t, vec))
             break
         truth = {x["station"]: x for x in truth_sessions(sc, tr, t)}
+        ke = sc.get("knife_edge")
+        if ke and all(tg in truth and truth[tg]["rem_ap"] > truth[tg]["max_pilot"] for tg in ke["targets"]) and \
+                sum(vec[ids.index(tg)] for tg in ke["targets"]) < ke["sum"] - 1e-6:
+            out.probe("knife_edge_sum_rejected")
         binding = False
         for s in ids:
             v = vec[ids.index(s)]
